@@ -27,6 +27,21 @@ func ConcatCar(c *cli.Context) (err error) {
 		defer outStream.(*os.File).Close()
 	}
 
+	// A CARv2 header announces the payload size ahead of the data: measure the inputs first.
+	var dataSize uint64
+	if c.Int("version") == 2 {
+		for i, arg := range c.Args().Slice() {
+			size, headerSize, err := concatInputSizes(arg)
+			if err != nil {
+				return fmt.Errorf("failed to open %s: %w", arg, err)
+			}
+			if i > 0 {
+				size -= headerSize
+			}
+			dataSize += size
+		}
+	}
+
 	first := true
 	for _, arg := range c.Args().Slice() {
 		inF, err := os.Open(arg)
@@ -56,8 +71,12 @@ func ConcatCar(c *cli.Context) (err error) {
 
 			if first {
 				if c.Int("version") == 2 {
-					cf.Header.IndexOffset = 0
-					if _, err := cf.Header.WriteTo(outStream); err != nil {
+					header := carv2.NewHeader(dataSize)
+					header.IndexOffset = 0 // no index is written
+					if _, err := outStream.Write(carv2.Pragma); err != nil {
+						return fmt.Errorf("failed to write pragma: %w", err)
+					}
+					if _, err := header.WriteTo(outStream); err != nil {
 						return fmt.Errorf("failed to write header: %w", err)
 					}
 				}
@@ -76,4 +95,39 @@ func ConcatCar(c *cli.Context) (err error) {
 	}
 
 	return nil
+}
+
+// concatInputSizes returns the size of a CAR file's CARv1 payload and of the CARv1 header in it.
+func concatInputSizes(path string) (uint64, uint64, error) {
+	f, err := os.Open(path)
+	if err != nil {
+		return 0, 0, err
+	}
+	defer f.Close()
+	cf, err := carv2.NewReader(f)
+	if err != nil {
+		return 0, 0, err
+	}
+	cv1, err := cf.DataReader()
+	if err != nil {
+		return 0, 0, err
+	}
+	carReader, err := carv1.NewCarReader(cv1)
+	if err != nil {
+		return 0, 0, err
+	}
+	headerSize, err := carv1.HeaderSize(carReader.Header)
+	if err != nil {
+		return 0, 0, err
+	}
+	size := cf.Header.DataSize
+	if cf.Version == 1 {
+		// a CARv1 file is its own payload
+		st, err := f.Stat()
+		if err != nil {
+			return 0, 0, err
+		}
+		size = uint64(st.Size())
+	}
+	return size, headerSize, nil
 }
